@@ -15,5 +15,6 @@ def run(prog, rep, tier):
                        "last-scheduled reference first: needs a crafted input, not a structural rule).")
     apply(rep, "G1", "single integration predicate", r_dw.g1(prog), 3)
     apply(rep, "V2", "family agreement of code and domain", r_dw.v2(prog), 14)
+    apply(rep, "G2", "find_attribute finds exactly what is reachable through specification OR abstract_origin (abstract evaluation on DIE graphs)", r_dw.g2(prog), 1)
     apply(rep, "M1", "a resolved DW_TAG_imported_unit is always replaced by the unit's children", r_dw.m1(prog), 1)
     maybe_mutants("C06", rep, tier)
